@@ -754,7 +754,7 @@ def _parse_scsv_bool(x):
 def _parse_scsv_cell(func, data, missingstr=None, fillval=None):
     # Also compare the unstripped data, the missing data marker may contain whitespace.
     if data == missingstr or data.strip() == missingstr:
-        if fillval == "NaN":
+        if fillval == "NaN" and func is not str:
             return func(np.nan)
         return func(fillval)
     elif func.__qualname__ == "bool":
